@@ -278,6 +278,7 @@ def _order_of(st, d, rec):
                     patterns=[order[i]]),
           FA([k], z3.Implies(z3.Select(rec["dom"], k), z3.And(0 <= pos[k], pos[k] < n, order[pos[k]] == k)),
                     patterns=[pos[k]])]
+
     st = st.assume(*ax).setghost(key, (order, pos, n))
     return st, order, pos, n
 
@@ -383,6 +384,33 @@ def _dictcomp_flat(eng, node, gen, s, fid, seq):
         alts.append(z3.And(0 <= sel[key], sel[key] < inner_n, cnd(sel[key]), kf(sel[key]) == key, z3.Select(val, key) == vf(sel[key])))
     axs.append(FA([key], z3.Implies(z3.Select(dom, key), z3.Or(*alts)), patterns=[z3.Select(dom, key)]))
     s2, d = alloc_dict(s.assume(*axs), kkind, vkind, dom=dom, val=val)
+    return [("ok", s2, d)]
+
+
+def dict_from_gen(eng, st, g):
+    """dict(<generator of (key, value) pairs>): last-wins map, the same characterisation as a dict comprehension"""
+    i = g.idx
+    e = g.elt
+    if not (isinstance(e, VTuple) and len(e.items) == 2):
+        raise Unsupported("dict() of a generator whose elements are not pairs")
+    kv, vv = e.items
+    kkind, vkind = B.value_kind(kv), B.value_kind(vv)
+    if kkind is None or vkind is None:
+        raise Unsupported("dict() of a generator with non-scalar entries")
+    ks = sort_of(kkind)
+    dom = fresh("dg_dom", z3.ArraySort(ks, z3.BoolSort()))
+    val = fresh("dg_val", z3.ArraySort(ks, sort_of(vkind)))
+    sel = fresh("dg_sel", z3.ArraySort(ks, I))
+    n = g.seq.n
+    kf = lambda ix: unwrap(subst_value(kv, i, ix), kkind)  # noqa
+    vf = lambda ix: unwrap(subst_value(vv, i, ix), vkind)  # noqa
+    j, k = z3.Const(fresh_name("j"), I), z3.Const(fresh_name("k"), ks)
+    ax1 = FA([j], z3.Implies(z3.And(0 <= j, j < n, g.cond_at(j)), z3.And(z3.Select(dom, kf(j)), sel[kf(j)] >= j)),
+             patterns=[kf(j)])
+    ax2 = FA([k], z3.Implies(z3.Select(dom, k), z3.And(0 <= sel[k], sel[k] < n, g.cond_at(sel[k]), kf(sel[k]) == k,
+                                                        z3.Select(val, k) == vf(sel[k]))),
+             patterns=[z3.Select(dom, k)])
+    s2, d = alloc_dict(st.assume(ax1, ax2), kkind, vkind, dom=dom, val=val)
     return [("ok", s2, d)]
 
 
